@@ -23,7 +23,7 @@ def nontrivial(d):
 class C21Spec(p_C20.C20Spec):
     modes = ["serial", "openmp"]
     level = "exploration"
-    quick, thorough = (4, 16), (150, 30)
+    quick, thorough = (4, 16), (200, 16)
     program = staticmethod(program)
     nontrivial = staticmethod(nontrivial)
     sanitize_bounds = False
